@@ -19,7 +19,7 @@ type Layout struct {
 	Extra    bool // extra spaces around punctuation, multi-line restriction lists
 	lines    []string
 	cur      strings.Builder
-	sites    int // number of layout choice sites visited
+	sites    int               // number of layout choice sites visited
 	Marks    map[string][2]int // declaration key -> (zero-based line, column) of its name in the text
 }
 
